@@ -82,6 +82,7 @@ let input_of (s : sx) : input =
   | List (Atom "eval" :: k :: e :: []) -> IEval (budget k, tm_of e)
   | List (Atom "full" :: k :: e :: []) -> IFull (budget k, tm_of e)
   | List (Atom "query" :: k :: x :: path) -> IQuery (budget k, atom x, List.map atom path)
+  | List (Atom "spine" :: k :: e :: []) -> ISpine (budget k, tm_of e)
   | _ -> failwith "unknown input"
 
 let class_of = function
@@ -102,6 +103,14 @@ let rec show_data = function
   | DRec fs ->
       let fs = List.sort (fun (a, _) (b, _) -> compare a b) fs in
       "{" ^ String.concat "," (List.map (fun (f, d) -> Printf.sprintf "%S:%s" f (show_data d)) fs) ^ "}"
+  | DThunk -> "<thunk>"
+
+(* the result of eval_record_spine, in the format of harness/src/bin/c12.rs show_spine *)
+let rec show_spine = function
+  | DRec fs ->
+      let fs = List.sort (fun (a, _) (b, _) -> compare a b) fs in
+      "{" ^ String.concat "," (List.map (fun (f, d) -> Printf.sprintf "%s:%s" f (show_spine d)) fs) ^ "}"
+  | d -> show_data d
 
 let show_outcome = function
   | OBound -> "bound"
@@ -115,6 +124,7 @@ let show_res f = function Val a -> "OK " ^ f a | Err e -> "ERR " ^ class_of e | 
 let () =
   let mode = if Array.length Sys.argv > 1 then Sys.argv.(1) else "model" in
   let unw = if mode = "broken" then unwind_broken else unwind in
+  let unlock_on_err = mode <> "nounlock" in
   try
     while true do
       let line = input_line stdin in
@@ -129,16 +139,18 @@ let () =
                | IEval (_, e) -> show_res (fun v -> show_obs (sobs v)) (spec_run n defs e) :: go defs rest
                | IFull (_, e) -> show_res show_data (spec_run_full n defs e) :: go defs rest
                | IQuery (_, x, path) ->
-                   show_res (fun v -> show_obs (sobs v)) (spec_run_query n defs x path) :: go defs rest) in
+                   show_res (fun v -> show_obs (sobs v)) (spec_run_query n defs x path) :: go defs rest
+               | ISpine (_, _) -> "-" :: go defs rest) in
         print_endline (String.concat " | " (go [] inputs))
       end else begin
         let rec go s = function
           | [] -> ([], [])
           | i :: rest ->
-              let (s', o) = sess_step_with unw s i in
+              let (s', o) = sess_step_gen unlock_on_err unw s i in
               let st = Printf.sprintf "%d,%d" (int_of_nat (count_blackholed s'.sheap)) (int_of_nat (count_locked s'.sheap)) in
               let (os, sts) = go s' rest in
-              (show_outcome o :: os, st :: sts) in
+              let shown = match i, o with ISpine _, OData dt -> "OK " ^ show_spine dt | _ -> show_outcome o in
+              (shown :: os, st :: sts) in
         let (os, sts) = go empty_session inputs in
         print_endline (String.concat " | " os ^ " ## " ^ String.concat " " sts)
       end
